@@ -6,7 +6,7 @@
 From Verif.Base Require Import Prelude.
 From Verif.Spec Require Import C19.
 From Verif.Model Require Import Sessions.
-From Verif.Proofs Require Import Sessions.
+From Verif.Proofs Require Import Sessions SessionsSpec.
 Open Scope Z_scope.
 
 Section C19.
@@ -92,6 +92,20 @@ Print Assumptions C19_cleanup_exact.
 Print Assumptions C19_boundary_stays.
 Print Assumptions C19_list_is_copy.
 Print Assumptions C19_initialize_creates_exactly_one.
+
+(** The extracted checker that judges the IMPLEMENTATION's observed steps is sound for the
+    declarative specification: an accepted step is a step of the simple map (and leaves a
+    duplicate-free store, so the next step's premise holds; the first store is empty). *)
+Theorem C19_checker_sound : forall (sid : Type) (sid_eqb : sid -> sid -> bool),
+  (forall a b, sid_eqb a b = true <-> a = b) ->
+  forall fresh_id now o pre post res,
+    NoDup (map fst pre) ->
+    step_ok sid sid_eqb fresh_id now o pre post res = true ->
+    NoDup (map fst post)
+    /\ Spec_step sid sid_eqb fresh_id now o
+         (fun k => l_lookup sid sid_eqb k pre) (fun k => l_lookup sid sid_eqb k post) res.
+Proof. exact step_ok_sound. Qed.
+Print Assumptions C19_checker_sound.
 
 (** Non-vacuity: integers as ids, the identity-like supply is injective; a history that
     creates, touches, expires at the boundary and initializes. *)
